@@ -321,8 +321,17 @@ class Gen:
   def gen_error(self):
     """Statements that pytype reports on (ordering / dedup material)."""
     r = self.r
-    k = r.randrange(14)
-    if k == 9:
+    k = r.randrange(15)
+    if k == 14:
+      # a directive that lists several names, late in the file on a line of
+      # its own: one report entry per name, all for the same line
+      names = r.sample(["attribute-error", "name-error", "import-error", "wrong-arg-types",
+                        "bad-return-type", "not-an-error", "neither-this"], r.randrange(2, 6))
+      self.emit("# pytype: %s=%s" % (r.choice(["disable", "disable", "enable"]), ",".join(names)))
+      if r.random() < 0.3:
+        self.emit("# pytype: %s=%s" % (r.choice(["features", "pragma"]),
+                                       ",".join(r.sample(["zz", "yy", "xx", "ww"], r.randrange(2, 4)))))
+    elif k == 9:
       # several unknown keywords in one call (a list of names in one message)
       g = self.fresh("g")
       self.emit("def %s(a=1):" % g)
